@@ -172,7 +172,7 @@ func (h *serialHarness) Gen(r *Rand, tier string, clean bool) any {
 		case 1:
 			c.RFail = r.Intn(200)
 		case 2:
-			c.SrcFail = &FaultSpec{Mode: []string{"before", "after"}[r.Intn(2)], J: r.Range(1, 4)}
+			c.SrcFail = &FaultSpec{Mode: []string{"before", "after", "afterlate"}[r.Intn(3)], J: r.Range(1, 4)}
 		case 3:
 			c.DstFail = 1 + r.Intn(5)
 		}
